@@ -73,6 +73,10 @@ def mixed_program(rng, u, depth=0, allow_pos=True, size=None, macros=None, comme
                                  "a": [{"k": "grp", "n": "", "a": br(), "g": False, "s": ""}, {"k": "grp", "n": "", "a": br(), "g": False, "s": ""}]})
                 else:
                     body.append(pp.bt("lit", rng.choice(["+", "-", ";"])))
+            if body and body[-1]["k"] == "use":
+                # a body never ENDS in a usage: behind the expansion of a macro without formals the restored group would be read as
+                # the argument list of that inner usage (the specification restores the group as separate tokens; thorough false alarm)
+                body.append(pp.bt("lit", ";"))
             if comments and rng.random() < 0.2:
                 body.append(pp.bt("lcmt", "tail%d" % u.n))
             items += [pp.define(name, formals, body if body else None), pp.nl()]
